@@ -263,7 +263,7 @@ def generate(tier, seed, ctx):
     # --- In_Units overloads ----------------------------------------------------------------------------------------
     for k in range(400 if thorough else 120):
         u = gen_unit(rng)
-        rnd = k % 2
+        rnd = (k // 6) % 2          # independent of the overload (k % 6)
         d = rng.randint(1, 7) if k % 11 else 8      # 8 digits with rounding -> diagnostic
 
         def val():
@@ -303,6 +303,27 @@ def generate(tier, seed, ctx):
             if k % 4 == 1:
                 us = us + [1.0]     # dimension count mismatch -> diagnostic
             R.append("c20.inunitsC %s %s %d %d" % (tbl(t), lst(us), rnd, d))
+    # every overload x every digit count 1..7 with round = true, on values with many significant digits
+    for d in range(1, 8):
+        for rep in range(3 if thorough else 1):
+            u = gen_unit(rng)
+            us2 = [u, gen_unit(rng), gen_unit(rng)]
+
+            def rv(uu):
+                for _ in range(100):
+                    x = rng.choice([-1, 1]) * rng.uniform(1.1111111, 9.8888888) * 10.0 ** rng.randint(-40, 40)
+                    q = Fraction(x) / Fraction(uu)
+                    # more than d significant digits at every requested d' <= 7, margin from every rounding boundary
+                    if all(safe_round(x, uu, dd) for dd in range(1, 8)) and all(
+                            (abs(q) * Fraction(10) ** (dd - 1 - expo10(q))) % 1 != 0 for dd in range(1, 8)):
+                        return x
+                return 1.2345678912 * uu
+            R.append("c20.inunits %s %s 1 %d" % (hx(rv(u)), hx(u), d))
+            R.append("c20.inunitsL %s %s 1 %d" % (lst([rv(u) for _ in range(3)]), hx(u), d))
+            R.append("c20.inunitsV %s %s 1 %d" % (lst([rv(u) for _ in range(3)]), hx(u), d))
+            R.append("c20.inunitsT %s %s 1 %d" % (tbl([[rv(u) for _ in range(3)] for _ in range(2)]), hx(u), d))
+            R.append("c20.inunitsM %s %s 1 %d" % (tbl([[rv(u) for _ in range(3)] for _ in range(2)]), hx(u), d))
+            R.append("c20.inunitsC %s %s 1 %d" % (tbl([[rv(us2[j]) for j in range(3)] for _ in range(2)]), lst(us2), d))
     for (x, d) in [(2.5, 1), (3.5, 1), (-2.5, 1), (1.25, 2), (0.0, 3), (7.0, 1), (1000.0, 2), (999.0, 2), (9.5, 1), (99.5, 2)]:
         R.append("c20.inunits %s %s 1 %d" % (hx(x), hx(1.0), d))
     # --- unit constants and identities ------------------------------------------------------------------------------
@@ -633,9 +654,10 @@ def compare(rq, impl, model, ctx):
         v, m = fl(ti[0]), fr(tm[0])
         if not rnd and x != 0 and not close(v * u, Fraction(x), Fraction(x), 8):
             out.append(fail("prop", "In_Units does not undo multiplication by the unit", "In_Units(%r,%r)=%r" % (x, u, v)))
-        if not close(v, m, m, K_VAL):
-            out.append(fail("corr" if not rnd else "prop" if not _round_ok(v, Fraction(x) / Fraction(u), d) else "corr",
-                            "In_Units (scalar) differs from the model", "impl %r model %r" % (v, _f(m))))
+        if rnd:
+            round_oracle(out, [v], [x], [u], d, "scalar")
+        if not close(v, m, m, K_VAL) and not out:
+            out.append(fail("corr", "In_Units (scalar) differs from the model", "impl %r model %r" % (v, _f(m))))
         return out
     if op in ("c20.inunitsL", "c20.inunitsV"):
         xs, rest = read_list(a, fl)
@@ -646,7 +668,10 @@ def compare(rq, impl, model, ctx):
             out.append(fail("prop", "In_Units changes the length of a list/vector", "%d -> %d" % (len(xs), len(li))))
         elif not rnd and any(x != 0 and not close(v * u, Fraction(x), Fraction(x), 8) for v, x in zip(li, xs)):
             out.append(fail("prop", "In_Units (list/vector) does not undo multiplication by the unit", ""))
-        cmp_values([li], [lm], "In_Units list/vector", out)
+        elif rnd:
+            round_oracle(out, li, xs, [u] * len(xs), d, "vector<double>" if op == "c20.inunitsL" else "Vector")
+        if not out:
+            cmp_values([li], [lm], "In_Units list/vector", out)
         return out
     if op in ("c20.inunitsT", "c20.inunitsM", "c20.inunitsC"):
         t, rest = read_table(a, fl)
@@ -668,7 +693,13 @@ def compare(rq, impl, model, ctx):
                     if x != 0 and not close(v * uu, Fraction(x), Fraction(x), 8):
                         out.append(fail("prop", "In_Units (table/matrix) does not undo multiplication by the unit", "%r / %r -> %r" % (x, uu, v)))
                         break
-        cmp_values(ri, rm, "In_Units table/matrix", out)
+        else:
+            flat_v = [v for rr in ri for v in rr]
+            flat_x = [x for tr in t for x in tr]
+            flat_u = [(us[j] if us is not None else u) for tr in t for j in range(len(tr))]
+            round_oracle(out, flat_v, flat_x, flat_u, d, {"c20.inunitsT": "table, one dimension", "c20.inunitsM": "Matrix", "c20.inunitsC": "table, per-column dimensions"}[op])
+        if not out:
+            cmp_values(ri, rm, "In_Units table/matrix", out)
         return out
     return [fail("corr", "unknown op " + op)]
 
@@ -752,10 +783,30 @@ def py_identities(ctx):
 
 
 def _round_ok(v, q, d):
-    """|v - q| within half a unit of the d-th significant digit (plus rounding)"""
+    """v is q rounded to d significant digits: a multiple of the unit 10^(e-d+1) of the d-th digit (to double
+    rounding) and within half that unit of q"""
     if q == 0:
         return v == 0
-    return abs(Fraction(v) - q) <= Fraction(10) ** (expo10(q) - d + 1) / 2 * (1 + Fraction(1, 2 ** 40))
+    if math.isnan(v) or math.isinf(v):
+        return False
+    unit = Fraction(10) ** (expo10(q) - d + 1)
+    s_ = Fraction(v) / unit
+    if abs(s_ - round(s_)) > max(abs(s_), 1) / 2 ** 40:
+        return False
+    return abs(Fraction(v) - q) <= unit / 2 * (1 + Fraction(1, 2 ** 40))
+
+
+ROUND_CLAUSE = "In_Units(round, digits) does not round to the requested digits"
+
+
+def round_oracle(out, vals, xs, us, d, what):
+    """vals/xs/us flat lists of the same length"""
+    if not 1 <= d <= 7:
+        return
+    for v, x, u in zip(vals, xs, us):
+        if not _round_ok(v, Fraction(x) / Fraction(u), d):
+            out.append(fail("prop", ROUND_CLAUSE, "%s: In_Units(%r, %r, true, %d) = %r" % (what, x, u, d, v)))
+            return
 
 
 def _diff(bi, bm):
